@@ -99,6 +99,9 @@ func setRandom(l leaf, rng *rand.Rand) bool {
 	switch f.Interface().(type) {
 	case time.Duration:
 		f.SetInt(int64(1 + rng.Int63n(int64(48*time.Hour))))
+		if rng.Intn(6) == 0 {
+			f.SetInt(-int64(1 + rng.Int63n(int64(time.Hour)))) // an explicit (if odd) value is an explicit value
+		}
 	case int:
 		f.SetInt(int64(1 + rng.Intn(1<<20)))
 		if rng.Intn(4) == 0 {
@@ -276,8 +279,14 @@ func runC17(sc drv.Scenario) drv.Result {
 	case "units":
 		for i := 0; i < p.N; i++ {
 			in, want, frac := c17GenSize(rng)
-			got := helpers.ResolveUnionIntOrStringValue(in)
+			got, pv := func() (g int, pv any) {
+				defer func() { pv = recover() }()
+				return helpers.ResolveUnionIntOrStringValue(in), nil
+			}()
 			res.Checks++
+			if pv != nil {
+				return viol("units", fmt.Sprintf("%#v (a well-formed size) was rejected: %v", in, pv))
+			}
 			if !want.IsInt64() {
 				continue
 			}
